@@ -4,8 +4,11 @@
 # Output: one line per change in regress.tsv: id, property, exit code, first signature.
 V="$(dirname "$(dirname "$(readlink -f "$0")")")"
 OUT="${1:-$V/regress.tsv}"
+SHARD="${2:-0}"; NSHARDS="${3:-1}"   # optional: only every NSHARDS-th change, starting at SHARD (set TRIAL_DIR per shard)
 : > "$OUT"
+i=0
 for d in "$V"/seeded/*/; do
+  i=$((i+1)); [ $((i % NSHARDS)) -eq "$SHARD" ] || continue
   m=$(basename "$d")
   target=$(sed -n 's/.*"breaks_property": "\(C[0-9]*\)".*/\1/p' "$d/meta.json")
   also=$(sed -n 's/.*"caught_by": "\(C[0-9]*\)".*/\1/p' "$d/meta.json")
